@@ -28,6 +28,7 @@ Record case := {
   c_local : option val;
   c_node : resp;                              (* pk: the answer of the peer itself; RespErr if never delivered *)
   c_arrivals : list (bool * peer * resp);
+  c_complete : bool;                          (* every responder's answer was delivered before the call returned *)
   c_stream : list val;
   c_result : outcome }.
 
@@ -121,7 +122,19 @@ Definition expected_pk : bool :=
   | CDual => node || dht CDual true || dht CDual false
   end.
 
-Inductive mm := MOk | MStream | MResult | MErr.
+Inductive mm := MOk | MStream | MResult | MErr | MQuorum.
+
+(* standard client: the lookup asks every responder unless the quorum stops it,
+   so a search that returned before all answers were in must have reached the
+   quorum in the model too *)
+Definition quorum_ok : bool :=
+  match c_client c, c_op c with
+  | CStd, OSearch | CStd, OGet =>
+      c_complete c
+      || pv_aborted (process_values vsel the_key (c_quorum c)
+                       (local_of CStd ++ remote_arrivals vvalid the_key (side true)))
+  | _, _ => true
+  end.
 
 Definition model_mm : mm :=
   match c_op c with
@@ -206,12 +219,13 @@ End Eval.
       at least as good as a valid value consumed before the search ended,
       not-found although a valid value was supplied; or the stream / result
       differs from the model's.
-   1: only the kind of failure differs (an error instead of not-found). *)
+   1: only the kind of failure differs (an error instead of not-found), or the
+      standard client's search ended before the quorum rule of the model says so. *)
 Definition verdict (c : case) : nat :=
   if negb (monitor c) then 2
   else match model_mm c with
-       | MOk => 0
-       | MErr => 1
+       | MOk => if quorum_ok c then 0 else 1
+       | MErr | MQuorum => 1
        | MStream | MResult => 2
        end.
 
